@@ -216,6 +216,12 @@ pub fn concat_twin_trees() -> Vec<E> {
             }
         }
     }
+    // one pattern under both case flags (also patterns without a letter that still tell the cases
+    // apart: bracket ranges with punctuation end points)
+    for p in ["[0-_]*", "[@-[]?", "[_-~]*", "[!a-z]*", "?", "*", "a", "A*", "[A-Z]", "x.[c-h]"] {
+        push(E::T(Tst::Name(s(p))), E::T(Tst::IName(s(p))), &mut out);
+        push(E::T(Tst::IPath(s(p))), E::T(Tst::Path(s(p))), &mut out);
+    }
     // file destinations: name + terminator
     let fmt = || vec![FEl::F(Fld::NameNoStart)];
     for name in ["out", "a b", "é"] {
